@@ -1023,6 +1023,134 @@ theorem HandleRun.refines_panic {root : Addr} {h h1 : Heap} {ops : List HOp} {bo
       | panic => rfl
     rw [key.mpr this]
 
+/-! ### handles are BORN live: what AddContainer / AddList / Child / Lookup on a live handle return is live -/
+
+theorem walkContH_congr {h g : Heap} : ∀ (segs : List String) (y : Addr),
+    (∀ b, Reach h y b → g.get? b = h.get? b) → walkContH g y segs = walkContH h y segs
+  | [], _, _ => rfl
+  | s :: rest, y, hag => by
+    simp only [walkContH, contChildH_congr hag s]
+    cases hcc : contChildH h y s with
+    | none => rfl
+    | some x =>
+      exact walkContH_congr rest x (fun b hb =>
+        hag b ((Ytk.Heap.childH_reach (Ytk.Heap.contChildH_some hcc).1).trans hb))
+
+theorem walkContH_lookup_append {h : Heap} : ∀ (segs : List String) (c x : Addr) (rest : List String),
+    walkContH h c segs = some x → rest ≠ [] → lookupSegsH h c (segs ++ rest) = lookupSegsH h x rest
+  | [], c, x, rest, hw, _ => by
+    simp only [walkContH, Option.some.injEq] at hw
+    subst hw
+    simp
+  | p :: segs, c, x, rest, hw, hne => by
+    simp only [walkContH] at hw
+    cases hcc : contChildH h c p with
+    | none => simp [hcc] at hw
+    | some y =>
+      simp only [hcc] at hw
+      obtain ⟨q, t, hqt⟩ : ∃ q t, segs ++ rest = q :: t := by
+        cases hst : segs ++ rest with
+        | nil =>
+          rw [List.append_eq_nil_iff] at hst
+          exact absurd hst.2 hne
+        | cons q t => exact ⟨q, t, rfl⟩
+      have ih := walkContH_lookup_append segs y x rest hw hne
+      rw [List.cons_append, hqt]
+      simp only [lookupSegsH, hcc]
+      rw [← hqt]
+      exact ih
+
+/-- the walk a live CONTAINER handle sits at: `[]` for the root, `splitPath p` otherwise -/
+def liveSegs (p : String) : List String := if p = "" then [] else splitPath p
+
+theorem LiveAt.walk {h : Heap} {root x : Addr} {p : String} {kvs : AMap Addr} (hlive : LiveAt h root x p)
+    (hg : h.get? x = some (.cont kvs)) : walkContH h root (liveSegs p) = some x := by
+  unfold liveSegs
+  by_cases hp : p = ""
+  · have : x = root := by simpa [LiveAt, hp] using hlive
+    simp [hp, walkContH, this]
+  · have hl : lookupSegsH h root (splitPath p) = some x := by simpa [LiveAt, hp, lookupH] using hlive
+    rw [if_neg hp]
+    exact walkContH_of_lookup _ root x kvs hl hg
+
+theorem liveSegs_toPath (p k : String) : liveSegs p ++ splitPath k = splitPath (toPath p k) := by
+  unfold liveSegs
+  by_cases hp : p = ""
+  · simp [hp, toPath]
+  · rw [if_neg hp, splitPath_toPath hp]
+
+theorem liveAt_of_lookupSegs {h : Heap} {root y : Addr} {q : String} (hq : q ≠ "")
+    (hl : lookupSegsH h root (splitPath q) = some y) : LiveAt h root y q := by
+  simp only [LiveAt, if_neg hq, lookupH]
+  exact hl
+
+/-- the new cell attached by `x.AddContainer(name)` / `x.AddList(name)` on a live handle is live -/
+theorem born_live_new {h h' : Heap} {root x : Addr} {p name : String} {c0 : Cell} (hk : c0.kids = [])
+    (hs0 : ∀ kvs, c0 = .cont kvs → AMap.Sorted kvs) (hi : Inv h) (hrl : root < h.size)
+    (hlive : LiveAt h root x p) (hdot : '.' ∉ name.toList) (hq : toPath p name ≠ "")
+    (he : addH (h.alloc c0).1 x name h.size = some h') : LiveAt h' root h.size (toPath p name) := by
+  obtain ⟨rank, hr⟩ := hi.acyclic
+  have hle := le_alloc h c0
+  have hi1 : Inv (h.alloc c0).1 :=
+    ⟨closed_alloc hi.closed (by rw [hk]; intro k hkm; cases hkm), ⟨rank, rankedBy_alloc_empty hr hk⟩,
+      mapsOk_alloc hi.mapsOk hs0, nilOk_mono hi.nilOk hle⟩
+  obtain ⟨rank1, hr1⟩ := hi1.acyclic
+  have hrl1 : root < (h.alloc c0).1.size := Nat.lt_of_lt_of_le hrl (size_le_of_le hle)
+  obtain ⟨kvs1, hgx1⟩ := addH_cont he
+  have hxl : x < h.size := by
+    by_cases hp : p = ""
+    · have : x = root := by simpa [LiveAt, hp] using hlive
+      rw [this]; exact hrl
+    · have hl : lookupSegsH h root (splitPath p) = some x := by simpa [LiveAt, hp, lookupH] using hlive
+      obtain ⟨m, hm⟩ := abs_defined hi.closed hi.acyclic hrl
+      cases hcell : h.get? root with
+      | none => exact absurd (get?_some_of_lt hrl) (by simp [hcell])
+      | some cell =>
+        cases cell with
+        | cont kvs0 =>
+          obtain ⟨_, dm, _, rfl⟩ := (show Abs h root m from ⟨_, hm⟩).cont_inv hcell
+          exact reach_lt hi.closed (lookupSegsH_abs _ root x dm ⟨_, hm⟩ hl).1 hrl
+        | leaf sc =>
+          exfalso
+          cases hsp : splitPath p with
+          | nil => exact Ytk.splitPath_ne_nil p hsp
+          | cons a t =>
+            rw [hsp] at hl
+            cases t with
+            | nil => simp [lookupSegsH, childH, hcell] at hl
+            | cons b t' => simp [lookupSegsH, contChildH, childH, hcell] at hl
+        | list xs0 =>
+          exfalso
+          cases hsp : splitPath p with
+          | nil => exact Ytk.splitPath_ne_nil p hsp
+          | cons a t =>
+            rw [hsp] at hl
+            cases t with
+            | nil => simp [lookupSegsH, childH, hcell] at hl
+            | cons b t' => simp [lookupSegsH, contChildH, childH, hcell] at hl
+  have hgx : h.get? x = some (.cont kvs1) := by rw [← get?_eq_of_le hle hxl]; exact hgx1
+  have hw := hlive.walk hgx
+  have hw1 : walkContH (h.alloc c0).1 root (liveSegs p) = some x := by
+    rw [walkContH_congr (liveSegs p) root (fun b hb => get?_eq_of_le hle (reach_lt hi.closed hb hrl))]
+    exact hw
+  have he' : addAtSegsH (h.alloc c0).1 root (liveSegs p ++ [name]) h.size = some h' := by
+    rw [(walkContH_append h.size (liveSegs p) root x [name] hw1 (by simp)).1]
+    simpa only [addAtSegsH] using he
+  have hlk := addAtSegsH_lookup hi1.closed hr1 hi1.nilOk hi1.mapsOk
+    (show h.size < (h.alloc c0).1.size by rw [size_alloc]; exact Nat.lt_succ_self _)
+    (liveSegs p ++ [name]) root h' (by simp) hrl1 he'
+  refine liveAt_of_lookupSegs hq ?_
+  rw [← liveSegs_toPath, PD.splitPath_plain hdot]
+  exact hlk
+
+/-- what `x.Child(name)` / `x.Lookup(q)` on a live container handle return is live -/
+theorem born_live_read {h : Heap} {root x y : Addr} {p : String} {kvs : AMap Addr} (hlive : LiveAt h root x p)
+    (hg : h.get? x = some (.cont kvs)) (q : String) (hq : toPath p q ≠ "")
+    (hl : lookupSegsH h x (splitPath q) = some y) : LiveAt h root y (toPath p q) := by
+  refine liveAt_of_lookupSegs hq ?_
+  rw [← liveSegs_toPath, walkContH_lookup_append (liveSegs p) root x _ (hlive.walk hg) (Ytk.splitPath_ne_nil q)]
+  exact hl
+
 /-! ## 6. sufficient executable checks on concrete heaps (for non-vacuity instances) -/
 
 /-- the list `S` of addresses is closed under children -/
